@@ -7,18 +7,19 @@ EXPLANATION = ('Histories are covered by ONE step from an arbitrary valid state:
 BOUNDS = {'quick': 'strings <= 5 bytes, small-string limit 4, all ASCII byte values incl. NUL', 'thorough': 'strings <= 7 bytes'}
 OUTSIDE = 'pools of more than two strings and operation sequences (inductive argument over the representation invariant of C05); vector-returning operations are checked in C09 through the vector model'
 OPS = {1: 'copy_then_kill_source', 2: 'copy_assign', 3: 'self_assign', 4: 'move_assign', 5: 'append_self', 6: 'replace_self', 7: 'concat', 8: 'substr_whole', 9: 'replace_nomatch', 10: 'trim_nothing', 11: 'to_upper_nochange',
-       12: 'left_all', 13: 'right_all', 14: 'clear', 15: 'append', 16: 'from_validated_then_mutate_source'}
+       12: 'left_all', 13: 'right_all', 14: 'clear', 15: 'append', 16: 'from_validated_then_mutate_source',
+       17: 'concat_cstr', 18: 'cstr_concat', 19: 'concat_char', 20: 'append_char', 21: 'char32_concat'}
 def queries():
     qs = []
     for tier, m in (('quick', 5), ('thorough', 7)):
         for op, nm in OPS.items():
             for first in (0, 1):
                 if first and op not in (1, 6, 7, 8, 9, 12): continue
-                mm = 3 if op in (6, 9) else (4 if op in (5, 15, 7) else m)   # replace-based operations: 3 bytes (the copying scan at symbolic offsets is the costly part, see C09)
+                mm = 3 if op in (6, 9) else (4 if op in (5, 15, 7, 17, 18, 19, 20, 21) else m)   # replace-based operations: 3 bytes (the copying scan at symbolic offsets is the costly part, see C09)
                 if op in (6, 9) and tier == 'thorough': mm = 4
                 d = {'OP': op, 'MAXS': mm}
                 if first: d['DESTROY_RESULT_FIRST'] = 1
-                heavy = op in (5, 6, 9, 15, 7)
+                heavy = op in (5, 6, 9, 15, 7, 17, 18, 19, 20, 21)
                 qs.append(Q('%s%s_%s' % (nm, '_result_first' if first else '', tier), 'C04_value.c', 'string.cpp', config='small', defs=d, unwind=2 * mm + 4, heap_cap=4 * mm + 8, tiers=(tier,),
                             loops=[(r'vpx_memcmp', mm + 1), (r'vpx_memchr', mm + 2)], bound={'op': nm, 'strings<=': mm}, timeout=900 if tier == 'quick' else 3000, mem_gb=10 if heavy else 6))
     return qs
